@@ -114,6 +114,18 @@ Theorem C02_swap_and_pow :
 Proof. split; [exact dims_swap_shape | exact qobj_pow_spec]. Qed.
 Print Assumptions C02_swap_and_pow.
 
+(* the inverse carries the exchanged labels (so A.inv() @ A and A @ A.inv()
+   compose), needs a square raw matrix, and is rejected otherwise *)
+Theorem C02_inv_exchanges_labels :
+  (forall self r, qobj_inv self = ODims r ->
+     d_from r = d_to self /\ d_to r = d_from self /\
+     fst (dims_shape self) = snd (dims_shape self) /\
+     dims_shape r = shape_swap (dims_shape self)) /\
+  (forall self, fst (dims_shape self) <> snd (dims_shape self) ->
+     qobj_inv self = ORaise TypeError).
+Proof. split; [exact qobj_inv_spec | exact qobj_inv_rejects]. Qed.
+Print Assumptions C02_inv_exchanges_labels.
+
 (* non-vacuity: a rectangular superoperator-on-compound spec exists, is
    typed 'super', and composes with its adjoint's labels *)
 Example C02_nonvacuous :
